@@ -22,6 +22,8 @@ def build(seed):
     # base columns holding truth values WITH missing entries (nullable boolean, object)
     nf["ok"] = pd.array([True, None, False], dtype="boolean")
     nf["okobj"] = pd.Series([True, None, False], dtype=object, index=nf.index)
+    # an object column of mixed kinds: nothing Arrow can pack
+    nf["mixed"] = pd.Series(["s", 1, 2.5], dtype=object, index=nf.index)
     return nf
 
 
@@ -87,6 +89,12 @@ PREFIX_OPS = {
     "reduce_no_columns": lambda f: f.reduce(lambda: 0),
     "add_nested_bad_on": lambda f: f.add_nested(pd.DataFrame({"q": [1]}), "w", on="missing_col"),
     "getitem_unknown": lambda f: f["n.nofield"],
+    # a new nest from one of the frame's OWN columns that cannot be packed (the column object sits in pandas' item cache)
+    "setitem_new_nest_unpackable": lambda f: f.__setitem__("meta.k", f["mixed"]),
+    "setitem_new_nest_unpackable_cached": lambda f: (f["mixed"], f["x"], f.__setitem__("meta.k", f["mixed"]))[2],
+    # removal of several fields from the live array where one name is wrong / nothing would be left: refused as a whole
+    "pop_fields_partial": lambda f: f["n"].array.pop_fields(["a", "nofield"]),
+    "pop_fields_all": lambda f: f["n"].array.pop_fields(list(f["n"].array.field_names)),
     # successful, read-only
     "query_ok": lambda f: f.query("n.a > 1"),
     "query_quoted_ok": lambda f: f.query("n.`b c` > 2"),
@@ -95,7 +103,7 @@ PREFIX_OPS = {
     "sort_ok": lambda f: f.sort_values("n.`b c`"),
     "dropna_ok": lambda f: f.dropna(subset="n.a"),
     "reduce_ok": lambda f: f.reduce(lambda a: {"s": float(np.nansum(np.asarray(a, dtype=float)))}, "n.a"),
-    "to_parquet": lambda f: f.to_parquet(io.BytesIO()),
+    "to_parquet": lambda f: f.drop(columns=["mixed"]).to_parquet(io.BytesIO()),
     "getitem_quoted": lambda f: f["n.`b c`"],
     "copy": lambda f: f.copy(),
 }
@@ -125,6 +133,9 @@ PROBES = {
     "list_lengths": lambda f: [int(v) for v in f["n"].array.list_lengths],
     "count_nested": lambda f: frame_view(__import__("nested_pandas").utils.count_nested(f, "n")),
     "nested_columns": lambda f: list(f.nested_columns),
+    "column_labels": lambda f: [str(f[c].name) for c in f.columns] + [str(c) for c in f["mixed"].to_frame().columns]
+                               + [str(c) for c in f.reset_index().columns],
+    "fields": lambda f: [list(f[c].nest.fields) for c in f.nested_columns] + [str(f[c].dtype) for c in f.nested_columns],
     "query_st": lambda f: frame_view(f.query("st.p > 1")),
     "getitem_st": lambda f: flat_vals(f["st.q"]),
     "assign_on_copy": lambda f: (lambda g: (g.__setitem__("n.`b c`", [9, 8, 7, 6, 5]), frame_view(g))[1])(f.copy()),
@@ -156,7 +167,7 @@ def run_history(ctx, names):
         obj, ref = (nf, fresh) if who == "same" else (nf.copy(), fresh.copy())
         # probes that only LOOK at the object come first (some later probes copy the frame internally, and pandas'
         # copy() clears the item cache of its source — which would repair state left there before it is looked at)
-        first = ["nest_series_index", "flat_index", "aliases_attr", "ok_isna", "list_lengths", "nested_columns", "data", "all_columns"]
+        first = ["column_labels", "fields", "nest_series_index", "flat_index", "aliases_attr", "ok_isna", "list_lengths", "nested_columns", "data", "all_columns"]
         order = first + [k for k in PROBES if k not in first]
         for pn in order:
             pf = PROBES[pn]
